@@ -2146,7 +2146,7 @@ def _current_date_updater(doc, field_name, value):
             # as it currently using time.time internally
             doc[field_name] = helpers.get_current_timestamp()
         else:
-            doc[field_name] = mongomock.utcnow()
+            doc[field_name] = helpers.patch_datetime_awareness_in_document(mongomock.utcnow())
 
 
 _updaters = {
